@@ -224,6 +224,12 @@ var rR3 = RuleRef{Name: "R3", Doc: "single-result type assertions cannot fail: o
 							}
 						}
 					}
+					// a record field that holds the asserted type in every record of the program
+					if u, ok := ta.X.(*ssa.UnOp); ok && !good {
+						if fa, ok := u.X.(*ssa.FieldAddr); ok && c.fieldAlwaysType(fa, ta.AssertedType) {
+							good = true
+						}
+					}
 					// built from that type in the same function?
 					backslice(ta.X, func(v ssa.Value) bool {
 						if mi, ok := v.(*ssa.MakeInterface); ok && types.Identical(mi.X.Type(), ta.AssertedType) {
@@ -1109,6 +1115,15 @@ var rR24 = RuleRef{Name: "R24", Doc: "replica determinism and snapshots: executo
 							purpose = "a TTL deadline is computed from the local clock (SetTTL argument)"
 						} else if cf.Pkg != nil && cf.Pkg.Pkg.Path() == "time" {
 							fwd(x, d+1) // .Unix(), .UnixMilli(), Sub ...
+						} else if cf.Signature.Recv() != nil && namedOf(cf.Signature.Recv().Type()) == "TTLInfo" && cf.Blocks != nil {
+							// handed to a method of TTLInfo that sets it against the deadline (info.expired(now))
+							for _, cb := range cf.Blocks {
+								for _, ci := range cb.Instrs {
+									if fa, ok := ci.(*ssa.FieldAddr); ok && fieldName(fa) == "value" && namedOf(fa.X.Type()) == "TTLInfo" {
+										purpose = "the local clock is compared with a stored deadline (lazy expiry / TTL reply)"
+									}
+								}
+							}
 						}
 					}
 				case *ssa.Store:
@@ -1826,4 +1841,123 @@ func predicateFalse(fn *ssa.Function, str string) (bool, bool) {
 		return false, false
 	}
 	return allFalse, true
+}
+
+// fieldAlwaysType: whole-program invariant of one unexported interface-typed field of a first-party record: every
+// record of that type is built by a literal that sets the field (a store in the block of its allocation), every store
+// into the field anywhere stores a value of type want, the field's address is only loaded and stored through, and the
+// record type is never embedded by value in another allocation (which would create zero records).
+func (c *C) fieldAlwaysType(fa *ssa.FieldAddr, want types.Type) bool {
+	pt, ok := fa.X.Type().Underlying().(*types.Pointer)
+	if !ok {
+		return false
+	}
+	named, ok := pt.Elem().(*types.Named)
+	if !ok {
+		return false
+	}
+	st, ok := named.Underlying().(*types.Struct)
+	if !ok || fa.Field >= st.NumFields() || st.Field(fa.Field).Exported() {
+		return false
+	}
+	key := named.String() + "." + st.Field(fa.Field).Name() + ":" + want.String()
+	if c.fatMemo == nil {
+		c.fatMemo = map[string]bool{}
+	}
+	if v, ok := c.fatMemo[key]; ok {
+		return v
+	}
+	var containsByValue func(t types.Type, depth int) bool
+	containsByValue = func(t types.Type, depth int) bool {
+		if depth > 6 {
+			return true
+		}
+		if types.Identical(t, named) {
+			return true
+		}
+		switch u := t.Underlying().(type) {
+		case *types.Struct:
+			for i := 0; i < u.NumFields(); i++ {
+				if containsByValue(u.Field(i).Type(), depth+1) {
+					return true
+				}
+			}
+		case *types.Array:
+			return containsByValue(u.Elem(), depth+1)
+		}
+		return false
+	}
+	res := true
+	builders := 0
+	for _, fn := range c.P.allFuncs(firstPartyPkgs...) {
+		for _, b := range fn.Blocks {
+			for _, in := range b.Instrs {
+				switch x := in.(type) {
+				case *ssa.FieldAddr:
+					xp, ok := x.X.Type().Underlying().(*types.Pointer)
+					if !ok || !types.Identical(xp.Elem(), named) || x.Field != fa.Field || x.Referrers() == nil {
+						continue
+					}
+					for _, r := range *x.Referrers() {
+						switch y := r.(type) {
+						case *ssa.UnOp:
+						case *ssa.Store:
+							mi, ok := y.Val.(*ssa.MakeInterface)
+							if y.Addr != ssa.Value(x) || !ok || !types.Identical(mi.X.Type(), want) {
+								res = false
+							}
+						case *ssa.DebugRef:
+						default:
+							res = false
+						}
+					}
+				case *ssa.Alloc:
+					et := x.Type().Underlying().(*types.Pointer).Elem()
+					if types.Identical(et, named) {
+						set := false
+						if x.Referrers() != nil {
+							for _, r := range *x.Referrers() {
+								if f2, ok := r.(*ssa.FieldAddr); ok && f2.Field == fa.Field && f2.Block() == x.Block() && f2.Referrers() != nil {
+									for _, rr := range *f2.Referrers() {
+										if s2, ok := rr.(*ssa.Store); ok && s2.Addr == ssa.Value(f2) && s2.Block() == x.Block() {
+											set = true
+										}
+									}
+								}
+							}
+						}
+						if !set {
+							res = false
+						}
+						builders++
+					} else if containsByValue(et, 0) {
+						res = false
+					}
+				case *ssa.MakeSlice:
+					if sl, ok := x.Type().Underlying().(*types.Slice); ok && containsByValue(sl.Elem(), 0) {
+						res = false
+					}
+				case *ssa.MakeMap:
+					if mp, ok := x.Type().Underlying().(*types.Map); ok && containsByValue(mp.Elem(), 0) {
+						res = false
+					}
+				case *ssa.MakeChan:
+					if ch, ok := x.Type().Underlying().(*types.Chan); ok && containsByValue(ch.Elem(), 0) {
+						res = false
+					}
+				}
+				// a zero record as an operand
+				for _, op := range in.Operands(nil) {
+					if op != nil && *op != nil {
+						if k, ok := (*op).(*ssa.Const); ok && types.Identical(k.Type(), named) {
+							res = false
+						}
+					}
+				}
+			}
+		}
+	}
+	res = res && builders > 0
+	c.fatMemo[key] = res
+	return res
 }
